@@ -245,6 +245,8 @@ def run(tier, seed):
         n = 6000
     chk.machine_family("repository-prolog-files", repo_file_scenarios(), features=features, opts_list=DEC)
     chk.machine_family("scale", gen.scale_scenarios(), features=features, max_steps=6000)
+    chk.machine_family("terms-that-print-alike-and-names-that-look-like-something-else", gen.twin_scenarios() + gen.special_name_scenarios(),
+                       {"must_complete": True}, features=features, max_steps=8000, opts_list=[{"must_complete": True}, {"must_complete": True, "mode": "decorated"}])
     # code -> specification: the repository's own tests, every API call recorded, decided by the machine
     from .. import suite_trace
     suite_trace.validate(chk, os.environ.get("YLDPROLOG_REPO", "/repo"))
